@@ -367,6 +367,26 @@ func (g *boxGen) evSvc(kind string) boxUserEvent {
 			s.Delete(svc)
 			g.deleted = append(g.deleted, svc.Namespace+"/"+svc.Name)
 			return svc.Namespace + "/" + svc.Name
+		case "svc-stack":
+			// the cluster gives the service a second cluster IP, or takes it back (dual-stack up/downgrade)
+			switch len(svc.Spec.ClusterIPs) {
+			case 2:
+				svc.Spec.ClusterIPs = svc.Spec.ClusterIPs[:1]
+				svc.Spec.IPFamilies = svc.Spec.IPFamilies[:1]
+			case 1:
+				if strings.Contains(svc.Spec.ClusterIPs[0], ":") {
+					svc.Spec.ClusterIPs = append(svc.Spec.ClusterIPs, "172.16.0.1")
+					svc.Spec.IPFamilies = []v1.IPFamily{v1.IPv6Protocol, v1.IPv4Protocol}
+				} else {
+					svc.Spec.ClusterIPs = append(svc.Spec.ClusterIPs, "fd00::1")
+					svc.Spec.IPFamilies = []v1.IPFamily{v1.IPv4Protocol, v1.IPv6Protocol}
+				}
+				if svc.Spec.IPFamilyPolicy == nil || *svc.Spec.IPFamilyPolicy == v1.IPFamilyPolicySingleStack {
+					svc.Spec.IPFamilyPolicy = ptr.To(v1.IPFamilyPolicyPreferDualStack)
+				}
+			default:
+				return "skipped (legacy clusterIP only)"
+			}
 		case "svc-terminating":
 			// deleted, but a finalizer keeps the object: it still exists and keeps what it holds
 			if svc.DeletionTimestamp == nil {
@@ -522,7 +542,7 @@ func (cb *cbox) evResync() boxUserEvent {
 	}}
 }
 
-var boxSvcEventKinds = []string{"svc-terminating", "svc-delete", "svc-ports", "svc-port-shrink", "svc-rekey", "svc-policy", "svc-retype", "svc-request", "svc-unrequest", "svc-labels"}
+var boxSvcEventKinds = []string{"svc-stack", "svc-terminating", "svc-delete", "svc-ports", "svc-port-shrink", "svc-rekey", "svc-policy", "svc-retype", "svc-request", "svc-unrequest", "svc-labels"}
 var boxPoolEventKinds = []string{"pool-new-layout", "pool-regroup", "pool-flip", "pool-drop", "pool-grow", "pool-shrink"}
 
 // randomEvent draws one user event.
